@@ -338,14 +338,17 @@ class Check:
     def coq_eval_shards(self, name, bodies, requires, timeout=900):
         """run several generated files in parallel; returns list of (rc, output)"""
         from concurrent.futures import ThreadPoolExecutor
-        with ThreadPoolExecutor(max_workers=NCPU) as ex:
+        # coqc needs roughly 0.5-1 GB per MB of case terms: big batches run fewer shards at a time
+        total_mb = sum(len(b) for b in bodies) / 1e6
+        workers = NCPU if total_mb < 16 else max(4, NCPU // 3)
+        with ThreadPoolExecutor(max_workers=workers) as ex:
             futs = [ex.submit(self.coq_eval, "%s_%d" % (name, i), b, requires, timeout) for i, b in enumerate(bodies)]
             results = [f.result() for f in futs]
         # a shard that ran out of time on a loaded machine is retried alone with three times the budget before
         # it is believed (a model that really diverges still ends as a broken tie)
         for i, (rc, out) in enumerate(results):
-            if rc == 124:
-                self.log("coq shard %s_%d timed out after %ss; retrying alone with %ss" % (name, i, timeout, timeout * 3))
+            if rc in (124, 137, -9):
+                self.log("coq shard %s_%d timed out / was killed (rc %s) after %ss; retrying alone with %ss" % (name, i, rc, timeout, timeout * 3))
                 results[i] = self.coq_eval("%s_%d" % (name, i), bodies[i], requires, timeout * 3)
         return results
 
